@@ -153,12 +153,16 @@ pub fn c11_profile() -> Profile {
     p.next_delays_s = vec![0, 1, 60, 3600, 18000];
     p.neighbour_permille = 150;
     p.disk.slow = 100;
+    // a client may use one handle object for all its requests and may give up on a request
+    p.sticky_handle_permille = 400;
+    p.abandon_request_permille = 120;
     p
 }
 
 fn c05_batches(tier: &str) -> Vec<Batch> {
     let mut p = c11_profile();
     p.name = "c05".into();
+    p.srv.dup_app_permille = 120;
     p.invalid_app_permille = 60;
     p.policy.params_vary = 450;
     p.policy.check = [55, 15, 10, 10, 10];
@@ -233,6 +237,7 @@ fn exec_c14_diff(p: &Profile, cfg: &RunCfg) -> (RunOut, MonOut) {
 
 pub fn c14_profile() -> Profile {
     let mut p = Profile::base("c14-hostile");
+    p.srv.dup_app_permille = 100;
     p.mode = Mode::Either;
     p.max_checks = 3;
     p.max_lifetimes = 2;
@@ -255,7 +260,9 @@ pub fn c14_profile() -> Profile {
         byzantine_doc: 80,
         duplicate: 0,
         retry_after: 250,
+        outage_permille: 0,
     };
+    p.net.outage_permille = 80;
     p.disk = DiskRates { fail_set: 60, fail_remove: 60, fail_commit: 60, slow: 0, commit_fail_drops_pending: true, hostile_init: 700, fail_keys: vec![] };
     p.bad_url_permille = 80;
     p.url_variants = true;
@@ -461,7 +468,7 @@ fn c19_batches(tier: &str) -> Vec<Batch> {
     // steps into and out of the unrepresentable range while running: a stored ordinary time
     // followed by one that does not fit (and the converse)
     a.clock_jump_permille = 450;
-    a.clock_classes = [2, 3, 1, 1, 2];
+    a.clock_classes = [2, 3, 1, 4, 2];
     a.disk.hostile_init = 500;
     a.net.none = 600;
     a.net.transport = 150;
@@ -533,6 +540,7 @@ fn c16_batches(tier: &str) -> Vec<Batch> {
         byzantine_doc: 140,
         duplicate: 0,
         retry_after: 30,
+        outage_permille: 0,
     };
     p.srv.app_outcome = [25, 60, 5, 5, 5];
     p.srv.big_size_permille = 400;
@@ -569,6 +577,7 @@ fn c10_batches(tier: &str) -> Vec<Batch> {
         byzantine_doc: 50,
         duplicate: 0,
         retry_after: 30,
+        outage_permille: 0,
     };
     p.srv.app_outcome = [25, 60, 5, 5, 5];
     p.srv.app_list = [40, 20, 15, 25];
@@ -644,6 +653,7 @@ pub fn c08_profile() -> Profile {
         byzantine_doc: 80,
         duplicate: 0,
         retry_after: 120,
+        outage_permille: 0,
     };
     p.bad_url_permille = 20;
     p.srv.app_outcome = [40, 50, 4, 3, 3];
@@ -714,6 +724,7 @@ fn adversarial_net() -> NetRates {
         byzantine_doc: 0,
         duplicate: 10,
         retry_after: 150,
+        outage_permille: 0,
     }
 }
 
@@ -753,12 +764,14 @@ pub fn c06_profile() -> Profile {
         byzantine_doc: 40,
         duplicate: 0,
         retry_after: 120,
+        outage_permille: 0,
     };
     p.bad_url_permille = 30;
     p.policy.check = [95, 5, 0, 0, 0];
     // the embedder changes an app's channel hint while a check may be between two attempts
     p.neighbour_permille = 400;
     p.neighbour_mutates_permille = 800;
+    p.net.outage_permille = 40;
     p
 }
 
@@ -786,6 +799,7 @@ pub fn c07_profile() -> Profile {
         byzantine_doc: 30,
         duplicate: 0,
         retry_after: 450,
+        outage_permille: 0,
     };
     p.srv.app_outcome = [40, 50, 4, 3, 3];
     p.installer.reboot = [0, 60, 40];
@@ -821,7 +835,14 @@ fn c06_batches(tier: &str) -> Vec<Batch> {
     pe.policy.min_wait_permille = 0;
     pe.max_checks = 1;
     pe.net.transport = 500;
+    // the commit that persists a server-dictated interval fails: the interval is in force all the same
+    let mut cf = c06_profile();
+    cf.name = "c06-commitfault".into();
+    cf.disk.fail_commit = 400;
+    cf.net.retry_after = 500;
+    cf.net.status = 400;
     vec![
+        Batch { name: "c06-commitfault".into(), profile: cf, runs: scale(tier, 5_000, 100_000), exec: exec_c06, strata: None },
         Batch { name: "c06-main".into(), profile: c06_profile(), runs: scale(tier, 20_000, 400_000), exec: exec_c06, strata: Some(c06_strata) },
         Batch { name: "c06-entropy".into(), profile: pe, runs: scale(tier, 300, 3_000), exec: exec_c06_entropy, strata: None },
     ]
